@@ -1,0 +1,76 @@
+//go:build verif
+
+package log
+
+import (
+	"bytes"
+	"fmt"
+	"os"
+	"runtime"
+	"strconv"
+	"sync"
+	"unsafe"
+)
+
+// When VERIF_TRACE_FILE is set, the pool hooks default to a recorder that appends one ndjson
+// line per buffer / event pool operation, so that any program built with the tag "verif" -
+// in particular this package's own test suite - leaves a trace that can be validated against
+// the specification. Sequence numbers are drawn under the recorder's lock, inside the hooks.
+func init() {
+	path := os.Getenv("VERIF_TRACE_FILE")
+	if path == "" {
+		return
+	}
+	f, err := os.OpenFile(path, os.O_CREATE|os.O_WRONLY|os.O_APPEND, 0644)
+	if err != nil {
+		return
+	}
+	var (
+		mu  sync.Mutex
+		seq int64
+		ids = map[uintptr]int{}
+	)
+	id := func(p uintptr) int {
+		if p == 0 {
+			return 0
+		}
+		v, ok := ids[p]
+		if !ok {
+			v = len(ids) + 1
+			ids[p] = v
+		}
+		return v
+	}
+	goid := func() int64 {
+		var b [64]byte
+		n := runtime.Stack(b[:], false)
+		fs := bytes.Fields(b[:n])
+		g, _ := strconv.ParseInt(string(fs[1]), 10, 64)
+		return g
+	}
+	emit := func(ev string, b, arr, e uintptr) {
+		g := goid()
+		mu.Lock()
+		seq++
+		fmt.Fprintf(f, `{"seq":%d,"g":%d,"ev":%q,"b":%d,"arr":%d,"e":%d}`+"\n", seq, g, ev, id(b), id(arr), id(e))
+		mu.Unlock()
+	}
+	VerifBuf = func(op int, b *bytes.Buffer) {
+		if op == 0 {
+			emit("bufget", uintptr(unsafe.Pointer(b)), 0, 0)
+			return
+		}
+		var arr uintptr
+		if bb := b.Bytes(); cap(bb) > 0 {
+			arr = uintptr(unsafe.Pointer(unsafe.SliceData(bb[:1])))
+		}
+		emit("bufput", uintptr(unsafe.Pointer(b)), arr, 0)
+	}
+	VerifEvt = func(op int, e *Event) {
+		if op == 0 {
+			emit("evget", 0, 0, uintptr(unsafe.Pointer(e)))
+		} else {
+			emit("evput", 0, 0, uintptr(unsafe.Pointer(e)))
+		}
+	}
+}
